@@ -34,13 +34,15 @@ class TupleVal:
 
 
 class CompVal:
-    """[elt for _ in iter]"""
-    __slots__ = ('elt', 'iter', 'line')
+    """[elt for _ in iter]; with lam set: map(lam, iter) - the element is computed when the value is iterated"""
+    __slots__ = ('elt', 'iter', 'line', 'lam')
 
-    def __init__(self, elt, it, line):
-        self.elt, self.iter, self.line = elt, it, line
+    def __init__(self, elt, it, line, lam=None):
+        self.elt, self.iter, self.line, self.lam = elt, it, line, lam
 
     def key(self):
+        if self.lam is not None:
+            return ('comp', self.lam.key(), key_of(self.iter))
         return ('comp', key_of(self.elt), key_of(self.iter))
 
     def __repr__(self):
@@ -223,7 +225,7 @@ def _is_trivial(fn: FuncInfo) -> bool:
     s = body[0]
     if isinstance(s, ast.Return):
         return not any(isinstance(n, ast.Call) and not isinstance(n.func, ast.Name) for n in ast.walk(s)) or True
-    if isinstance(s, (ast.Assign, ast.AnnAssign, ast.Pass)):
+    if isinstance(s, (ast.Assign, ast.AnnAssign, ast.AugAssign, ast.Pass)):
         return True
     return False
 
@@ -526,6 +528,9 @@ class Explorer:
                         lo, hi = (0, int(bounds[0])) if len(bounds) == 1 else (int(bounds[0]), int(bounds[1]))
                         if 0 <= hi - lo <= 4:
                             items = [RF.const(i) for i in range(lo, hi)]
+            mapped = itv.lam if isinstance(itv, CompVal) and itv.lam is not None else None
+            if mapped is not None:
+                itv = itv.iter       # for t in map(lambda x: E, IT): ranges over IT, t = E[x := element]
             live = [s0]
             k = 0
             while live:
@@ -543,7 +548,23 @@ class Explorer:
                         continue
                     lv = items[k] if items is not None else atomv(('iter', f'{st.lineno}', k, key_of(itv)))
                     cur.emit('iter', st, loop=st.lineno, k=k, var=lv)
-                    for s2, oc0 in self.assign(st.target, lv, cur, st, silent=True):
+                    if mapped is not None:
+                        starts = []
+                        # the body belongs to the function that wrote the lambda: evaluate it in a frame of that
+                        # function (call resolution is per function)
+                        fenv = dict(mapped.env)
+                        fenv[mapped.node.args.args[0].arg] = lv
+                        cur.frames.append((mapped.func, fenv))
+                        for s2, v2, exc2 in self.ev(mapped.node.body, cur):
+                            s2.frames.pop()
+                            if exc2:
+                                out.append((s2, ('raise', exc2)))
+                            else:
+                                starts.append((s2, v2))
+                    else:
+                        starts = [(cur, lv)]
+                    for s1, lv1 in starts:
+                      for s2, oc0 in self.assign(st.target, lv1, s1, st, silent=True):
                         if oc0 is not None:
                             out.append((s2, oc0))
                             continue
@@ -957,7 +978,7 @@ class Explorer:
             c = i.const_value() if isinstance(i, RF) else None
             if c is not None and c.denominator == 1 and 0 <= int(c) < len(b.items):
                 return b.items[int(c)]
-        if isinstance(b, CompVal):
+        if isinstance(b, CompVal) and b.lam is None:
             return b.elt
         bk, ik = key_of(b), key_of(i)
         hv = s.heap.get((bk, ('[]', ik)))
@@ -1251,6 +1272,9 @@ class Explorer:
         else:
             static_recv, recv_for_call = None, recv
         # ---- symbolic models of arithmetic externals
+        if internal and not news and exts and set(exts) <= {'builtins.map', 'builtins.filter'} and \
+                all(c.name in ('__iter__', '__next__') for c in internal):
+            internal = []        # the iteration protocol of the argument, driven by the builtin
         if not internal and not news:
             dotted = self.ext_name(e, s, exts)
             if dotted is not None:
@@ -1370,6 +1394,9 @@ class Explorer:
             return args[0]
         if dotted == 'builtins.range':
             return atomv(('range',) + tuple(key_of(a) for a in args))
+        if dotted == 'builtins.map' and n == 2 and isinstance(args[0], LambdaVal) and not kwargs and \
+                len(args[0].node.args.args) == 1 and not isinstance(args[1], (TupleVal, CompVal)):
+            return CompVal(None, args[1], getattr(e, 'lineno', 0), lam=args[0])
         if dotted == 'builtins.len' and n == 1:
             if isinstance(args[0], TupleVal):
                 return RF.const(len(args[0].items))
